@@ -2,6 +2,7 @@ package e1doc
 
 import (
 	"fmt"
+	"math"
 
 	"github.com/mfcochauxlaberge/jsonapi"
 
@@ -178,6 +179,16 @@ func runC03(t *core.Tape, st *core.Stats) *core.Violation {
 			st.Inc("probe:include-on-wrappercollection")
 		case "resource":
 			st.Inc("probe:include-on-single-resource")
+		}
+	}
+
+	// A primary resource that encoding/json refuses (a NaN in its meta): whatever the
+	// marshaler makes of it, the document it returns has to be well formed.
+	if res, ok := doc.Data.(jsonapi.Resource); ok && ds.Kind == "resource" && t.Bool(1, 10) {
+		if mh, ok := res.(jsonapi.MetaHolder); ok {
+			core.Call(func() { mh.SetMeta(jsonapi.Meta{"ratio": math.NaN()}) })
+			st.Inc("probe:primary-resource-that-json-refuses")
+			t.Logf("the primary resource gets meta {ratio: NaN}")
 		}
 	}
 
